@@ -59,7 +59,7 @@ P = {
          '(balance applied to the NEW state, that row recorded); re-mesh / extension keep particle volume (C08 contracts).', 'regime sum fv < 1; positive molar volumes; history lift by induction (trusted principle)'),
  'C02': ('Statistics = moments (the _calcMassBalance contract), stored distribution = state with classes below one removed plus the two documented zeroings (_processX, _updateParticleSizeDistribution without re-mesh), '
          'number balance of one Euler update through the real getdXdtEuler + correctdXdtEuler: N_new - N_old = dt*J + dt*(nf(0) - nf(bins)) <= J*dt (linear-sum lemma), per-phase wiring of _getdXdt/_correctdXdt.',
-         'RK4 uses the last stage rate (observation); re-mesh steps: volume fraction vs post-re-mesh distribution'),
+         'RK4 uses the last stage rate (observation); re-mesh steps: volume fraction vs post-re-mesh distribution; BOUNDED stand-in shared with C08 (grid extension after operation sequences of length <= 2 / <= 3)'),
  'C03': ('Alignment of all 16 histories per accepted step, ranges (0<=fv<=1, R>=0, N>=0, x>=0) from the mass-balance contract, populations 0 or >=1, solver time contract (C05), and the backend-fault paths: _growthRateMulti/_singleGrowthMulti executed with a backend that may return None at every call '
          '(all fault sequences for P<=2): no exception, one-row slices, previous growth rate and last valid equilibrium compositions kept; phase-reset path sizes.',
          'NaN/inf freedom, sum fv <= 1 and x <= 1 are undecided (listed); driving-force/impingement queries assumed to return values'),
@@ -68,15 +68,15 @@ P = {
          'per-step mesh-sum balance for Euler and RK4, fixed nodes, clip bounds, setup idempotence and configuration-op frames, for symbolic mesh size.', 'E <= 2 independent components'),
  'C05': ('Loop invariant of DESolver.solve with arbitrary (uninterpreted) model callbacks: time strictly increases, never exceeds tf, step within the fractions, only '
          'the last step short, progress >= m, exactly one postProcess per step, exit at tf unless stopped; clamp also in IEEE double semantics for every double incl. NaN/inf; '
-         'iterator call structure; Coupler routing and stop OR; flatten/unflatten round trips.', 'state lists of <= 3 items, couplings of <= 3 models; termination via the Archimedean property'),
+         'iterator call structure; Coupler routing and stop OR; flatten/unflatten round trips.', 'state lists of <= 3 items, couplings of <= 3 models; termination via the Archimedean property; thorough tier adds the IEEE-double end-time clause through the real solve loop (QF_FP, about 140 s)'),
  'C06': ('The Butcher tableau (c, A, b) is EXTRACTED from the real iterator source by executing it on an uninterpreted right-hand side; the documented stage times, row-sum consistency and the '
          'classical order conditions (1 for Euler, 8 for RK4) are checked on the extracted rationals; X_old is never mutated; the solver advances time by exactly the step the state was advanced.',
          'order theorem for Runge-Kutta schemes trusted (cited)'),
  'C07': ('Every obligation generated from the current source of getdXdtEuler / correctdXdtEuler / getDTEuler / getDissolutionIndex (upwind face flux, telescoping conservation, containing class, '
-         'face-wise limiting, step-limit consequence, dt formula, frames) is discharged for symbolic grid size, distribution, growth field and nucleation term.', 'class invariant PBM_INV assumed at entry (preserved: C08)'),
+         'face-wise limiting, step-limit consequence, dt formula, frames) is discharged for symbolic grid size, distribution, growth field and nucleation term.', 'class invariant PBM_INV assumed at entry (preserved: C08); additionally a BOUNDED stand-in (labelled, not counted as proved): the step-limit contract on objects reached from the real constructor by every sequence of <= 2 (quick) / <= 3 (thorough) grid operations'),
  'C08': ('Representation invariant of PopulationBalanceModel established by __init__ and re-established by every public grid operation from an arbitrary invariant state (=> all histories); '
          'extend frame, exact third-moment preservation under re-mesh (unless the interpolated volume is zero), maxBins bound, reset, backup/revert, and all 16 moment functions as sums over their ARGUMENT.',
-         'np.interp / np.histogram assumed contracts; re-mesh mass loss of an isolated class recorded as known finding'),
+         'np.interp / np.histogram assumed contracts; re-mesh mass loss of a population lying between the new class centres is a known finding with two replayed witnesses (exact np.interp on concrete grid pairs); BOUNDED stand-in (labelled, not counted): addSizeClasses contract after every operation sequence of length <= 2 / <= 3 from the real constructor'),
 }
 checks = []
 for pid in sorted(P):
